@@ -269,6 +269,15 @@ class RandomLeg(object):
             r = check_pair(bins, s, e, fmt, one)
             if r is not None:
                 return Failure(r[0], sig=r[1])
+        # the returned set belongs to the caller: emptying it must not change what the next call returns
+        r1 = bins(s, e, fmt=fmt, one=False)
+        if isinstance(r1, set):
+            keep = set(r1)
+            r1.clear()
+            r2 = bins(s, e, fmt=fmt, one=False)
+            if r2 != keep:
+                return Failure("bins(%d, %d, fmt=%r, one=False) returns %d bins after the caller emptied the previous result (%d before)"
+                               % (s, e, fmt, len(r2), len(keep)), sig={"kind": "shared-result"})
         # corollary: overlapping or nested in-range intervals see each other's bin
         if fmt == "gff" and in_range(s, e, "gff") and s <= e:
             if case["nest"]:
